@@ -37,6 +37,10 @@ class Interp(LibMixin, CallMixin, StmtMixin, ExprMixin, InterpBase):
             # a host value is never one of the agent's own objects, functions or containers
             ctx.assume(z3.Implies(Val.is_VRef(v), self.host_or_builtin_class(z3.Select(st.typeof, Val.r(v)))))
             return v
+        if p.kind == "hostobj":
+            v = VRef(self.fresh_ref(name))
+            ctx.assume(z3.Select(st.typeof, Val.r(v)) >= HOST_CLASS_BASE)
+            return v
         if p.kind == "int":
             return Val.VInt(ctx.fresh(name, I))
         if p.kind == "str":
@@ -122,6 +126,9 @@ class Interp(LibMixin, CallMixin, StmtMixin, ExprMixin, InterpBase):
         if p.kind == "any":
             conds.append(z3.Implies(Val.is_VRef(v), z3.And(Val.r(v) > 0, Val.r(v) < st.next_id,
                                     self.host_or_builtin_class(z3.Select(st.typeof, Val.r(v))))))
+        elif p.kind == "hostobj":
+            conds.append(z3.And(Val.is_VRef(v), Val.r(v) > 0, Val.r(v) < st.next_id,
+                                z3.Select(st.typeof, Val.r(v)) >= HOST_CLASS_BASE))
         elif p.kind == "int":
             conds.append(Val.is_VInt(v))
         elif p.kind == "str":
@@ -175,6 +182,10 @@ class Interp(LibMixin, CallMixin, StmtMixin, ExprMixin, InterpBase):
         if not any(k == key for k, _ in objs):
             objs.append((key, (clsname, v, subclasses)))
         names = [clsname] + list(subclasses or [])
+        # objects reachable from the pre-state exist before anything this path allocates; objects constructed on
+        # this path may refer to what existed when their construction finished
+        bounds = self.st.ghost.setdefault("_obj_bounds", {})
+        self.st.ghost["_pre_bound"] = bounds.get(str(v), ALLOC_BASE)
         S_ = SpecCtx(self, self.top, {}, self.st.snapshot())
         for nm in names:
             inv = CLASS_INVARIANTS.get(nm)
@@ -183,6 +194,7 @@ class Interp(LibMixin, CallMixin, StmtMixin, ExprMixin, InterpBase):
                 if subclasses and nm != clsname:
                     g = z3.Implies(S_.new.typeof(v) == S_.cid(nm), g)
                 self.ctx.assume(g)
+        self.st.ghost["_pre_bound"] = None
 
     # ------------------------------------------------------------------ havoc
     def apply_havoc(self, items):
@@ -372,6 +384,9 @@ def verify_contract(index, table, contracts, c, axioms, timeout_ms=10000, max_pa
         for nm in list(c.params) + [n for n in names if n not in c.params]:
             p = c.params.get(nm)
             bound[nm] = it.make_param(nm, p)
+        for nm, p_ in c.params.items():
+            if p_ is not None and p_.kind == "obj" and not p_.inv and nm in bound:
+                st.ghost.setdefault("_constructing", {})[str(bound[nm])] = True
         for nm in names:
             fr.locals[nm] = bound[nm]
         for nm in c.params:
